@@ -276,3 +276,13 @@ func V5Decode(patch []byte) (d DecodeView) {
 // SetV5PackageLimit sets only the v5 package-level default copy limit (used to
 // check that a per-call limit of 0 really disables the check whatever the default is).
 func SetV5PackageLimit(l int64) { v5.AccumulatedCopySizeLimit = l }
+
+// SetV5HostileDefaults sets the v5 package-level defaults to the OPPOSITE of the
+// per-call options a phase uses: explicit ApplyOptions must take precedence in
+// every respect, so nothing may change. Returns a restore function.
+func SetV5HostileDefaults(o ref6902.Options) func() {
+	oldN, oldL := v5.SupportNegativeIndices, v5.AccumulatedCopySizeLimit
+	v5.SupportNegativeIndices = !o.Neg
+	v5.AccumulatedCopySizeLimit = 1
+	return func() { v5.SupportNegativeIndices, v5.AccumulatedCopySizeLimit = oldN, oldL }
+}
